@@ -1143,10 +1143,9 @@ fn sub_spelling_prefix_unique(level: &CmdSpec, p: &str) -> bool {
 fn long_flag_prefix_unique(level: &CmdSpec, p: &str) -> bool {
     let mut hits = 0;
     for sc in &level.subs {
-        if let Some(lf) = &sc.long_flag {
-            hits += usize::from(lf.starts_with(p));
-            hits += sc.long_flag_aliases.iter().filter(|a| a.0.starts_with(p)).count();
-        }
+        // (subcommands that only have long-flag aliases take part in the inference as well)
+        hits += usize::from(sc.long_flag.as_deref().map(|lf| lf.starts_with(p)).unwrap_or(false));
+        hits += sc.long_flag_aliases.iter().filter(|a| a.0.starts_with(p)).count();
     }
     let claimed = level.args.iter().any(|a| a.long.iter().chain(a.aliases.iter().map(|x| &x.0)).any(|l| l.starts_with(p)))
         || "help".starts_with(p)
